@@ -60,21 +60,36 @@ func (p *pp) SafeBytes(r i.SafeBytes) {
 
 func (p *pp) Print(args ...interface{}) {
 	defer p.buf.SetMode(p.buf.GetMode())
-	np := newPrinter()
-	np.buf = p.buf
+	np := p.nestedPrinter()
+	defer p.endNestedPrinter(np)
 	np.doPrint(args)
-	p.buf = np.buf
-	np.buf = buffer{}
-	np.free()
 }
 
 func (p *pp) Printf(format string, arg ...interface{}) {
 	defer p.buf.SetMode(p.buf.GetMode())
+	np := p.nestedPrinter()
+	defer p.endNestedPrinter(np)
+	np.doPrintf(format, arg)
+}
+
+// nestedPrinter returns a printer that temporarily owns the buffer of
+// p and is subject to the same Safe()/Unsafe() override as p.
+func (p *pp) nestedPrinter() *pp {
 	np := newPrinter()
 	np.buf = p.buf
-	np.doPrintf(format, arg)
+	np.override = p.override
+	return np
+}
+
+// endNestedPrinter hands the buffer back to p and recycles np. It
+// must run also when a panic propagates out of the nested call:
+// the nested printer has written into (and possibly reallocated) the
+// array that p.buf would otherwise keep referring to with a stale
+// length and escaping state.
+func (p *pp) endNestedPrinter(np *pp) {
 	p.buf = np.buf
 	np.buf = buffer{}
+	np.override = noOverride
 	np.free()
 }
 
